@@ -7,6 +7,7 @@ import (
 	"github.com/go-git/go-billy/v6"
 
 	"github.com/go-git/go-git/v6/plumbing"
+	"github.com/go-git/go-git/v6/storage"
 	"github.com/go-git/go-git/v6/utils/ioutil"
 )
 
@@ -23,6 +24,23 @@ func (d *DotGit) setRefRwfs(fileName, content string, old *plumbing.Reference) (
 	mode := os.O_RDWR | os.O_CREATE
 	if old == nil {
 		mode |= os.O_TRUNC
+	}
+
+	if old != nil {
+		// Without a loose file the current value lives in packed-refs
+		// (or nowhere). Compare against it before creating the loose
+		// file: a failed check must not leave an empty loose file
+		// behind, which git reads as a broken reference shadowing the
+		// packed value.
+		if _, statErr := d.fs.Stat(fileName); os.IsNotExist(statErr) {
+			ref, err := d.packedRef(old.Name())
+			if err != nil {
+				return err
+			}
+			if ref.Hash() != old.Hash() {
+				return storage.ErrReferenceHasChanged
+			}
+		}
 	}
 
 	f, err := d.fs.OpenFile(fileName, mode, 0o666)
